@@ -23,6 +23,7 @@ mod toc;
 mod tlsch;
 mod snie;
 mod autocmp;
+mod tlsd;
 mod server;
 mod tls;
 mod tcpc;
@@ -64,6 +65,7 @@ fn gen(stream: &str, seed: u64, n: u64) -> Vec<String> {
                 "tlsch" => tlsch::gen(&mut r, i),
                 "snie" => snie::gen(&mut r, i),
                 "autocmp" => autocmp::gen(&mut r, i),
+                "tlsd" => tlsd::gen(&mut r, i),
                 "srv" => server::gen(&mut r, i),
                 "tls" => tls::gen(&mut r, i),
                 "tcpc" => tcpc::gen(&mut r, i),
@@ -105,6 +107,7 @@ fn run_line(line: &str) -> String {
         "tlsch" => tlsch::run(&toks),
         "snie" => snie::run(&toks),
         "autocmp" => autocmp::run(&toks),
+        "tlsd" => tlsd::run(&toks),
         "srv" => server::run(&toks),
         "tls" => tls::run(&toks),
         "tcpc" => tcpc::run(&toks),
